@@ -197,6 +197,83 @@ def greenlet_case() -> Optional[str]:
         g.switch()
 
 
+class Future:
+    """A custom awaitable whose stack item is resolved by a registered unwrap_stackitem hook to
+    something that yields plain frames (a parked thread, a suspended greenlet, a list of frames)."""
+
+    def __init__(self, target: Any):
+        self.target = target
+        self.n = 0
+
+    def __await__(self) -> "Future":
+        return self
+
+    def __iter__(self) -> "Future":
+        return self
+
+    def __next__(self) -> str:
+        self.n += 1
+        if self.n == 1:
+            return "future-trap"
+        raise StopIteration
+
+
+stackscope.unwrap_stackitem.register(Future)(lambda f: f.target)
+
+
+def bridged_case(kind: int) -> Optional[str]:
+    """A SUSPENDED coroutine awaits a Future that unwraps to frames owned by something else.  Those
+    frames were not found 'by looking inside' the coroutine's own frame, and whatever origin they carry
+    must still lead back to them."""
+    import greenlet
+
+    ready, done = threading.Event(), threading.Event()
+    cleanup: List[Any] = []
+    if kind == 0:
+        def inner() -> None:
+            ready.set()
+            done.wait(20)
+
+        t = threading.Thread(target=lambda: inner(), daemon=True)
+        t.start()
+        ready.wait(10)
+        target: Any = t
+        cleanup.append(lambda: (done.set(), t.join(5)))
+    elif kind == 1:
+        def f() -> None:
+            greenlet.getcurrent().parent.switch()
+
+        g = greenlet.greenlet(lambda: f())
+        g.switch()
+        target = g
+        cleanup.append(lambda: g.switch())
+    else:
+        target = [D.POOL_GENS[5].gi_frame, D.POOL_GENS[6]]
+
+    async def waiter() -> None:
+        await Future(target)
+
+    async def top() -> None:
+        await waiter()
+
+    co = top()
+    co.send(None)
+    try:
+        st = stackscope.extract(co)
+        if len(st.frames) < 3:
+            return f"bridge not followed: {[f.funcname for f in st.frames]} error={st.error!r}"
+        why = origin_contract(st)
+        if why:
+            return why
+        if st.frames[0].origin is not co:
+            return "the awaiting coroutine's own frame lost its origin"
+        return outermost_contract(co)
+    finally:
+        for c in cleanup:
+            c()
+        co.close()
+
+
 def frameless_case(i: int) -> Optional[str]:
     objs = [42, None, "x", threading.Thread(target=print), stackscope.extract]
     return outermost_contract(objs[i])
@@ -260,8 +337,8 @@ def _shard(sh: Dict[str, Any]) -> Dict[str, Any]:
             why = tree_case(ti, bi)
             case = {"what": "tree", "tree": ti, "beh": bi}
         elif what == "misc":
-            k = e.choice("scenario", 7)
-            why = thread_case() if k == 0 else greenlet_case() if k == 1 else frameless_case(k - 2)
+            k = e.choice("scenario", 10)
+            why = thread_case() if k == 0 else greenlet_case() if k == 1 else frameless_case(k - 2) if k < 7 else bridged_case(k - 7)
             case = {"what": "misc", "k": k}
         else:
             kind, depth = e.choice("kind", 3), e.choice("depth", 3)
@@ -284,7 +361,7 @@ def run(rep: Any, tier: str, seed: int) -> None:
     rep.functions = FUNCTIONS
     Dp = 2 if tier == "quick" else 3
     rep.bounds = {"chains": f"depth 0..{Dp} over the C03 link kinds, 3 roots, 2 terminals", "item trees": f"{len(TREES)} trees x {len(BEHS)} hook tables",
-                  "others": "parked thread, suspended greenlet, 5 frameless roots", "running": "generator / coroutine / async generator, extracted from 0..2 calls below"}
+                  "others": "parked thread, suspended greenlet, 5 frameless roots, a suspended coroutine awaiting a custom awaitable that unwraps to a thread / greenlet / list of frames", "running": "generator / coroutine / async generator, extracted from 0..2 calls below"}
     rep.outside = ["chains deeper than the bound", "Trio / greenback item kinds"]
     rep.assumptions = ["low solver leverage: finite scenario product certified complete by the solver"]
     shards: List[Dict[str, Any]] = [{"what": "chain", "root": r, "depth": d} for r in C.ROOTS for d in range(0, Dp + 1)]
@@ -304,7 +381,7 @@ def replay(c: Dict[str, Any]) -> Dict[str, Any]:
         why = tree_case(c["tree"], c["beh"])
     elif w == "misc":
         k = c["k"]
-        why = thread_case() if k == 0 else greenlet_case() if k == 1 else frameless_case(k - 2)
+        why = thread_case() if k == 0 else greenlet_case() if k == 1 else frameless_case(k - 2) if k < 7 else bridged_case(k - 7)
     else:
         why = running_case(c["kind"], c["depth"])
     return {"status": "reproduces" if why else "not-reproduced", "detail": why}
